@@ -66,6 +66,33 @@ def verify(src, sid, prop):
     return True
 
 
+def run_isolated(sid, ids, tier):
+    """run the checks against a scratch worktree of /repo HEAD with the patch applied (does not touch /repo, evidence goes to a scratch dir)"""
+    dst = os.path.join(SEEDED, sid)
+    meta = json.load(open(os.path.join(dst, "meta.json")))
+    ids = ids or [meta["breaks_property"]]
+    wt = tempfile.mkdtemp(prefix="mutr_", dir="/tmp")
+    os.rmdir(wt)
+    rc, out = sh(["git", "-C", "/repo", "worktree", "add", "-q", "--detach", wt, "HEAD"])
+    assert rc == 0, out
+    try:
+        rc, out = sh(["git", "-C", wt, "apply", os.path.join(dst, "patch.diff")])
+        if rc:
+            print(f"{sid}: PATCH DOES NOT APPLY to current HEAD: {out.strip()[:200]}")
+            return
+        vcopy = tempfile.mkdtemp(prefix="mutv_", dir="/tmp")
+        sh(f"cp -r {VERIF}/check {VERIF}/checks {VERIF}/harness {VERIF}/specs {VERIF}/known_findings.json {vcopy}/ && mkdir -p {vcopy}/evidence {vcopy}/replays")
+        for pid in ids:
+            env = dict(os.environ, VERIF_REPO=wt)
+            rc, out = sh([os.path.join(vcopy, "check"), pid, "--tier", tier], cwd=vcopy, env=env, timeout=7200)
+            viol = [l for l in out.splitlines() if l.startswith("VIOLATION")]
+            print(f"{sid} {pid} {tier}: exit={rc} {'DETECTED' if rc == 1 else 'MISSED' if rc == 0 else 'MACHINERY'}" + (f" :: {viol[0][:200]}" if viol else ""))
+        shutil.rmtree(vcopy, ignore_errors=True)
+    finally:
+        sh(["git", "-C", "/repo", "worktree", "remove", "--force", wt])
+        shutil.rmtree(wt, ignore_errors=True)
+
+
 def run(sid, ids, tier):
     dst = os.path.join(SEEDED, sid)
     meta = json.load(open(os.path.join(dst, "meta.json")))
@@ -101,3 +128,9 @@ if __name__ == "__main__":
         if "--tier" in args:
             i = args.index("--tier"); tier = args[i + 1]; del args[i:i + 2]
         run(args[0], args[1:], tier)
+    elif sys.argv[1] == "iso":
+        args = sys.argv[2:]
+        tier = "quick"
+        if "--tier" in args:
+            i = args.index("--tier"); tier = args[i + 1]; del args[i:i + 2]
+        run_isolated(args[0], args[1:], tier)
